@@ -1,6 +1,7 @@
 /- protocol handlers for the digest model (glue) -/
 import PyOak.Decode
 import PyOak.Model.Encode
+import PyOak.Model.Equality
 namespace PyOak
 open Sexp
 
@@ -42,5 +43,16 @@ def handleCidEq (args : List Sexp) : Option Sexp := do
   let b ← decodeTree env (← field1? args "tree2")
   let (ca, cb) := (do let x ← cidI a; let y ← cidI b; pure (x, y) : StateM (List Str) (Str × Str)).run' []
   pure (app "ok" [ofBool (ca == cb), ofBool (a.cls == b.cls && ca == cb)])
+
+/-- `(node-eq env (tree a) (tree2 b))` : `a == b`, `b == a` -/
+def handleNodeEq (args : List Sexp) : Option Sexp := do
+  let env := decodeEnv args
+  let a ← decodeTree env (← field1? args "tree")
+  let b ← decodeTree env (← field1? args "tree2")
+  let (ca, cb) := (do let x ← cidI a; let y ← cidI b; pure (x, y) : StateM (List Str) (Str × Str)).run' []
+  let r (x : Except Unit Bool) : Sexp := match x with
+    | .ok v => ofBool v
+    | .error _ => sym "raise"
+  pure (app "ok" [r (eqCore (ca == cb) a b), r (eqCore (cb == ca) b a)])
 
 end PyOak
